@@ -10,6 +10,12 @@ CHECKS = {
     'C01': ('explicit-state BFS of the real World to fixpoint (replay-based, canonical-key dedup) against a table model',
             'E1: all World operation histories over ids {1,2,3} x {A,B(A),X}, <=2 automatic ids per clear, explored to fixpoint under the coarse key and to a stated depth under the order-preserving key; every query family evaluated in every state',
             'CPython semantics; reference table model; coarse key drops dict order (DESIGN 2.5)', '3/C01'),
+    'C02': ('explicit-state BFS of the real World with dispatch toggles to fixpoint; per-instance callback ledger vs table model',
+            'E1: all histories of World operations x enable/disable over handler/non-handler component classes and 2 ids, postponed queue bounded, explored to fixpoint; ledger, is_handler and a probe event checked after every transition / in every state',
+            'CPython semantics; harness keeps components alive; clear() while disabled excluded (documented conflict)', '3/C02'),
+    'C05': ('explicit-state BFS of the real World to fixpoint: deferred deletion x every other operation x process, two-policy table model',
+            'E1: deferred deletion mixed with every other World op on the same/other entity, deletion from inside a frame, deferred delete of a never-existing id, any number of process() calls, explored to fixpoint',
+            'CPython semantics; table model; admissible policies listed in DESIGN 3/C05', '3/C05'),
 }
 
 NOT_YET = {p: 'check under construction (planned in DESIGN.md section 3); not claimed yet' for p in
